@@ -6,7 +6,7 @@ import (
 	"verif/sim/kernel"
 )
 
-var lim = kernel.Limits{MaxSteps: 400, SettleSteps: 300}
+var lim = kernel.Limits{MaxSteps: 1000, SettleSteps: 300} // (ordinary runs end long before; marathon runs need the room)
 
 // Specs lists the checks this world binary serves.
 func Specs() []kernel.Spec {
